@@ -207,6 +207,52 @@ theorem abs_of_cons_perm {t t' : Raw} {e : Entry} (hp : (e :: t'.ents).Perm t.en
   · have : (e.k == k') = false := by simpa using (fun h => hk h.symm)
     simp [this, hk]
 
+theorem idsOf_perm {a b : List Entry} (h : a.Perm b) : (idsOf a).Perm (idsOf b) := by
+  unfold idsOf; exact List.Perm.flatMap_right _ h
+
+theorem idsOf_cons (e : Entry) (es : List Entry) : idsOf (e :: es) = e.kid :: e.vid :: idsOf es := by
+  simp [idsOf, Entry.ids]
+
+theorem idsOf_append (a b : List Entry) : idsOf (a ++ b) = idsOf a ++ idsOf b := by
+  simp [idsOf]
+
+theorem map_updVal_absent {es : List Entry} {k v vid : Nat} (h : k ∉ keysOf es) :
+    es.map (updVal k v vid) = es := by
+  induction es with
+  | nil => rfl
+  | cons a rest ih =>
+    simp only [keysOf, List.map_cons, List.mem_cons, not_or] at h
+    simp only [List.map_cons]
+    rw [updVal_other (fun heq => h.1 heq.symm), ih h.2]
+
+/-- overwriting the value stored for a present key swaps exactly one value object -/
+theorem idsOf_updVal {es : List Entry} {x : Entry} (hnd : (keysOf es).Nodup) (hx : x ∈ es) (v vid : Nat) :
+    (x.vid :: idsOf (es.map (updVal x.k v vid))).Perm (vid :: idsOf es) := by
+  induction es with
+  | nil => cases hx
+  | cons a rest ih =>
+    simp only [keysOf, List.map_cons, List.nodup_cons] at hnd
+    rcases List.mem_cons.1 hx with rfl | hin
+    · have hrest : rest.map (updVal x.k v vid) = rest := map_updVal_absent hnd.1
+      simp only [List.map_cons, hrest, idsOf_cons]
+      have : updVal x.k v vid x = { x with v := v, vid := vid } := by simp [updVal]
+      rw [this]
+      simp only
+      -- x.vid :: x.kid :: vid :: R  ~  vid :: x.kid :: x.vid :: R
+      refine (List.Perm.swap x.kid x.vid _).trans ?_
+      refine (List.Perm.cons x.kid (List.Perm.swap vid x.vid _)).trans ?_
+      exact List.Perm.swap vid x.kid _
+    · have hne : a.k ≠ x.k := by
+        intro heq; apply hnd.1; rw [heq]; exact List.mem_map_of_mem hin
+      simp only [List.map_cons, updVal_other hne, idsOf_cons]
+      have := ih hnd.2 hin
+      -- x.vid :: a.kid :: a.vid :: I'  ~  vid :: a.kid :: a.vid :: I
+      refine (List.Perm.swap a.kid x.vid _).trans ?_
+      refine (List.Perm.cons a.kid (List.Perm.swap a.vid x.vid _)).trans ?_
+      refine (List.Perm.cons a.kid (List.Perm.cons a.vid this)).trans ?_
+      refine (List.Perm.cons a.kid (List.Perm.swap vid a.vid _)).trans ?_
+      exact List.Perm.swap vid a.kid _
+
 /-- `HashMap::insert`.  For every invariant state, entry and oracle: either the documented
     capacity-overflow / OOM outcome of a growth, or a state that denotes the updated abstract map;
     the previous value is returned; at most `R` elements are moved, each hashed once, the key is
@@ -224,7 +270,9 @@ theorem Map.insert_spec (c : Cfg) (hR : 0 < c.R) (m : Map) (e : Entry) (o : Orc)
       (∀ ol, m.lo = some ol → (absOf m e.k = none ∨ ∃ x, x ∈ ol.ents ∧ x.k = e.k) →
         r.2.cost.moved = min c.R ol.ents.length ∧
         (ol.ents.length ≤ c.R → r.1.lo = none) ∧
-        (c.R < ol.ents.length → ∃ o', r.1.lo = some o' ∧ o'.ents.length = ol.ents.length - c.R))) := by
+        (c.R < ol.ents.length → ∃ o', r.1.lo = some o' ∧ o'.ents.length = ol.ents.length - c.R)) ∧
+      -- ledger: stored ⊎ handed back ⊎ dropped = stored before ⊎ the key and value passed in
+      (idsOf r.1.ents ++ r.2.returned ++ r.2.cost.dropped).Perm (idsOf m.ents ++ e.ids)) := by
   unfold Map.insert
   have habs := find_eq_abs h e.k
   cases hf : m.find e.k with
@@ -253,9 +301,16 @@ theorem Map.insert_spec (c : Cfg) (hR : 0 < c.R) (m : Map) (e : Entry) (o : Orc)
         exfalso; apply hfresh
         simp only [Raw.ents, keysOf, List.map_append, List.mem_append]
         left; rw [← hk]; exact List.mem_map_of_mem hx
-      · intro ol hol _
-        obtain ⟨a, b, d⟩ := s8 ol hol
-        exact ⟨by simpa using a, b, d⟩
+      · refine ⟨?_, ?_⟩
+        · intro ol hol _
+          obtain ⟨a, b, d⟩ := s8 ol hol
+          exact ⟨by simpa using a, b, d⟩
+        · have := idsOf_perm s2
+          simp only [s6, List.append_nil, Cost.add_dropped, List.nil_append]
+          rw [idsOf_cons] at this
+          refine this.trans ?_
+          simp only [Entry.ids]
+          exact (List.perm_append_comm (l₁ := [e.kid, e.vid]) (l₂ := idsOf m.ents))
   | some p =>
     obtain ⟨loc, old⟩ := p
     rw [hf] at habs
@@ -277,11 +332,34 @@ theorem Map.insert_spec (c : Cfg) (hR : 0 < c.R) (m : Map) (e : Entry) (o : Orc)
       · simp
       · intro _; simp
       · intro _; simp
-      · intro ol' hol' hcase
-        exfalso
-        rcases hcase with hn | ⟨x, hx, hk⟩
-        · rw [← habs] at hn; cases hn
-        · exact h.disjoint hol' hkin (by rw [← hk]; exact List.mem_map_of_mem hx)
+      · refine ⟨?_, ?_⟩
+        · intro ol' hol' hcase
+          exfalso
+          rcases hcase with hn | ⟨x, hx, hk⟩
+          · rw [← habs] at hn; cases hn
+          · exact h.disjoint hol' hkin (by rw [← hk]; exact List.mem_map_of_mem hx)
+        · have hup := idsOf_updVal h.main_nodup hin e.v e.vid
+          rw [hok] at hup
+          have hset : (m.main.setVal e.k e.v e.vid).ents = m.main.ents.map (updVal e.k e.v e.vid) := rfl
+          simp only [Raw.ents, hset, idsOf_append, Entry.ids, Cost.add_dropped, List.nil_append]
+          -- (I(main') ++ I(old)) ++ [old.vid] ++ [e.kid]  ~  (I(main) ++ I(old)) ++ [e.kid, e.vid]
+          have h1 : (idsOf (m.main.ents.map (updVal e.k e.v e.vid)) ++ [old.vid]).Perm (idsOf m.main.ents ++ [e.vid]) := by
+            refine (List.perm_append_comm).trans ?_
+            refine hup.trans ?_
+            exact (List.perm_append_comm (l₁ := [e.vid]) (l₂ := idsOf m.main.ents))
+          generalize idsOf (m.main.ents.map (updVal e.k e.v e.vid)) = A at h1 ⊢
+          generalize idsOf m.main.ents = B at h1 ⊢
+          generalize idsOf (match m.lo with | some o => o.ents | none => []) = C
+          have step1 : ((A ++ C) ++ [old.vid] ++ [e.kid]).Perm ((A ++ [old.vid]) ++ (C ++ [e.kid])) := by
+            simp only [List.append_assoc]
+            exact List.Perm.append_left A (List.perm_append_comm_assoc C [old.vid] [e.kid])
+          have step2 : ((B ++ [e.vid]) ++ (C ++ [e.kid])).Perm ((B ++ C) ++ [e.kid, e.vid]) := by
+            simp only [List.append_assoc]
+            apply List.Perm.append_left
+            refine (List.perm_append_comm_assoc [e.vid] C [e.kid]).trans ?_
+            apply List.Perm.append_left
+            exact List.Perm.swap e.kid e.vid []
+          exact step1.trans ((List.Perm.append_right _ h1).trans step2)
     · -- present in the old table: in-place update, then carry
       simp only [hm, Bool.false_eq_true, if_false, Bool.not_false, if_true]
       have hknin : e.k ∉ keysOf m.main.ents := by
@@ -322,10 +400,41 @@ theorem Map.insert_spec (c : Cfg) (hR : 0 < c.R) (m : Map) (e : Entry) (o : Orc)
         · intro _; simp [d7]
         · rintro ⟨x, hx, hk⟩
           exfalso; apply hknin; rw [← hk]; exact List.mem_map_of_mem hx
-        · intro ol' hol' _
-          rw [hol] at hol'; cases hol'
-          refine ⟨by simp [d5], d3, fun hlt => ?_⟩
-          exact ⟨_, d4 hlt, by simp⟩
+        · refine ⟨?_, ?_⟩
+          · intro ol' hol' _
+            rw [hol] at hol'; cases hol'
+            refine ⟨by simp [d5], d3, fun hlt => ?_⟩
+            exact ⟨_, d4 hlt, by simp⟩
+          · have hup := idsOf_updVal (h.old_nodup hol) hin e.v e.vid
+            rw [hok] at hup
+            have hp2 := idsOf_perm c2
+            simp only [Entry.ids, Cost.add_dropped, List.nil_append, d9, List.append_nil]
+            have hents1 : Raw.ents { m with lo := m.lo.map (fun ol => { ol with ents := ol.ents.map (updVal e.k e.v e.vid) }) }
+                = m.main.ents ++ ol.ents.map (updVal e.k e.v e.vid) := by simp [Raw.ents, hol]
+            rw [hents1, idsOf_append] at hp2
+            have hents0 : m.ents = m.main.ents ++ ol.ents := by simp [Raw.ents, hol]
+            rw [hents0, idsOf_append]
+            have h1 : (idsOf (ol.ents.map (updVal e.k e.v e.vid)) ++ [old.vid]).Perm (idsOf ol.ents ++ [e.vid]) := by
+              refine (List.perm_append_comm).trans ?_
+              refine hup.trans ?_
+              exact (List.perm_append_comm (l₁ := [e.vid]) (l₂ := idsOf ol.ents))
+            generalize idsOf (ol.ents.map (updVal e.k e.v e.vid)) = A at h1 hp2 ⊢
+            generalize idsOf ol.ents = B at h1 ⊢
+            generalize idsOf m.main.ents = C at hp2 ⊢
+            generalize idsOf m2.ents = D at hp2 ⊢
+            -- D ++ [old.vid] ++ [e.kid] ~ (C ++ A) ++ [old.vid] ++ [e.kid] ~ C ++ (B ++ [e.vid]) ++ [e.kid] ~ (C ++ B) ++ [e.kid, e.vid]
+            have s1 : (D ++ [old.vid] ++ [e.kid]).Perm (C ++ (A ++ [old.vid]) ++ [e.kid]) := by
+              simp only [List.append_assoc]
+              have := List.Perm.append_right ([old.vid] ++ [e.kid]) hp2
+              simpa only [List.append_assoc] using this
+            have s2 : (C ++ (A ++ [old.vid]) ++ [e.kid]).Perm (C ++ (B ++ [e.vid]) ++ [e.kid]) :=
+              List.Perm.append_right _ (List.Perm.append_left _ h1)
+            have s3 : (C ++ (B ++ [e.vid]) ++ [e.kid]).Perm ((C ++ B) ++ [e.kid, e.vid]) := by
+              simp only [List.append_assoc]
+              apply List.Perm.append_left
+              apply List.Perm.append_left
+              exact List.Perm.swap e.kid e.vid []
+            exact s1.trans (s2.trans s3)
 
 /-- lookups: the abstract map's answer; one hash, nothing else; state untouched -/
 theorem Map.get_spec {R : Nat} (m : Map) (k : Nat) (h : Inv R m) :
